@@ -500,6 +500,9 @@ impl Reg {
         let rand_idx =
             thread_rng().sample(rand_distr::WeightedIndex::new(self.get_probabilities()).unwrap());
 
+        #[cfg(qvnt_verif)]
+        crate::verif::record_outcome(rand_idx & mask);
+
         self.collapse_mask(rand_idx, mask);
         self.normalize();
         super::CReg::with_state(self.q_num, rand_idx & mask)
